@@ -1441,6 +1441,18 @@ func (ev *evalCtx) call(x *ast.CallExpr, want types.Type) (string, types.Type, e
 		for _, l := range ev.c.rangeLocs {
 			return fmt.Sprintf("(select %s %s)", ev.H("bv64"), l), intT, nil
 		}
+	case "rstr":
+		// rstr(): the string the function's (only) string range loop iterates over - for
+		// loops over an unnamed value such as `for _, r := range v.String()`
+		if err := argc(0); err != nil {
+			return "", nil, err
+		}
+		if len(ev.c.rangeLocs) != 1 {
+			return "", nil, fmt.Errorf("rstr(): the function has %d string range loops seen so far, need exactly one", len(ev.c.rangeLocs))
+		}
+		for x := range ev.c.rangeLocs {
+			return ev.c.v(x.X), x.X.Type(), nil
+		}
 	case "sameheap":
 		// sameheap(): every heap component (and the allocation counter) is what it was at
 		// function entry - "the call had no effect at all" (for contracts whose frame is
